@@ -9,10 +9,10 @@
                                attribute `pid` does not exist until the first connect), drop / disconnect overrides for
                                in-memory databases (drop = rollback only, disconnect = nothing)
     pony/orm/core.py           SessionCache.connection (`held`): connect asserts it is None; close()/release hand it back.
-  A process is a record; `fork` duplicates the record of the forking process (memory is copied) and the child gets a new
-  pid.  A connection carries a serial number and the pid of the process that created it (the real harness records
+  A thread of a process is a record (`Pool` is thread-local); `fork` duplicates the record of the forking THREAD (memory is
+  copied, the other threads do not exist in the child) and the child gets a new pid; `spawn` starts a thread with a fresh record.  A connection carries a serial number and the pid of the process that created it (the real harness records
   `os.getpid()` in the connection factory).  Logs (`returned`, `stmts`, `closed`) are ghost state used to state the theorems.
-  Not modelled: threads (Pool is thread-local: one record per thread), failure of `con.rollback()` inside release,
+  Not modelled: that `forked_connections` is ONE list per process shared by its threads (here: per record), failure of `con.rollback()` inside release,
   `OraPool` (same pid test, on a SessionPool; cannot be run here).
   Core Lean only.
 -/
@@ -38,6 +38,7 @@ structure Pool where
 
 structure Proc where
   pid : Nat                  -- os.getpid()
+  tid : Nat                  -- the thread: `Pool` is a `threading.local` subclass, every thread has its own record (0 = main thread)
   pool : Pool
   held : Option Conn         -- SessionCache.connection: the connection checked out by the running session
   fresh : Bool               -- ghost: this process has called connect (successfully or not) since it came into being (root: true)
@@ -57,13 +58,15 @@ inductive Act where
   deriving DecidableEq, Repr
 
 inductive Ev where
-  | act (p : Nat) (a : Act)
-  | fork (p : Nat)
+  | act (p t : Nat) (a : Act)     -- thread `t` of process `p` performs `a` on ITS record
+  | fork (p t : Nat)              -- thread `t` of process `p` calls os.fork(): the child has this one thread (and its record) only
+  | spawn (p t : Nat)             -- process `p` starts thread `t`: a fresh record (`Pool.__init__` runs again in every thread)
   deriving DecidableEq, Repr
 
-def Ev.actor : Ev → Nat
-  | .act p _ => p
-  | .fork p => p
+def Ev.actor : Ev → Nat × Nat
+  | .act p t _ => (p, t)
+  | .fork p t => (p, t)
+  | .spawn p t => (p, t)
 
 /-- what one local step did (ghost outputs) -/
 structure Out where
@@ -163,16 +166,18 @@ structure World where
   deriving Repr
 
 def init (k : Kind) : World :=
-  { kind := k, procs := [{ pid := 0, pool := initPool k, held := none, fresh := true }], nextPid := 1, nextSerial := 0 }
+  { kind := k, procs := [{ pid := 0, tid := 0, pool := initPool k, held := none, fresh := true }], nextPid := 1, nextSerial := 0 }
 
-def outsOf (w : World) (p : Nat) (a : Act) : List Out :=
-  w.procs.filterMap (fun q => if q.pid = p then some (localStep w.kind w.nextSerial q a).2 else none)
+def sel (p t : Nat) (q : Proc) : Bool := q.pid == p && q.tid == t
+
+def outsOf (w : World) (p t : Nat) (a : Act) : List Out :=
+  w.procs.filterMap (fun q => if sel p t q then some (localStep w.kind w.nextSerial q a).2 else none)
 
 def step (w : World) : Ev → World
-  | .act p a =>
-    let outs := outsOf w p a
+  | .act p t a =>
+    let outs := outsOf w p t a
     { w with
-      procs := w.procs.map (fun q => if q.pid = p then (localStep w.kind w.nextSerial q a).1 else q)
+      procs := w.procs.map (fun q => if sel p t q then (localStep w.kind w.nextSerial q a).1 else q)
       nextSerial := w.nextSerial + 1
       returned := w.returned ++ (outs.filterMap (·.returned)).map (fun c => (p, c))
       stmts := w.stmts ++ (outs.flatMap (·.stmts)).map (fun c => (p, c))
@@ -180,12 +185,16 @@ def step (w : World) : Ev → World
       attrErrors := w.attrErrors + (outs.filter (·.attrError)).length
       assertErrors := w.assertErrors + (outs.filter (·.assertError)).length
       staleDisconnect := w.staleDisconnect || outs.any (·.staleDisconnect) }
-  | .fork p =>
-    let kids := (w.procs.filter (fun q => q.pid = p)).map (fun q => { q with pid := w.nextPid, fresh := false })
+  | .fork p t =>
+    let kids := (w.procs.filter (sel p t)).map (fun q => { q with pid := w.nextPid, fresh := false })
     { w with
       procs := w.procs ++ kids
       nextPid := w.nextPid + 1
       forkWhileHeld := w.forkWhileHeld || kids.any (fun q => q.held.isSome) }
+  | .spawn p t =>
+    if w.procs.any (fun q => q.pid == p) && !w.procs.any (sel p t) then
+      { w with procs := w.procs ++ [{ pid := p, tid := t, pool := initPool w.kind, held := none, fresh := true }] }
+    else w
 
 def run (w : World) (evs : List Ev) : World := evs.foldl step w
 
